@@ -29,6 +29,37 @@ Definition tdel (t : fdt) (fd : Z) : fdt := filter (fun e => negb (Z.eqb (fst e)
    nothing in the library depends on which) *)
 Definition fresh (t : fdt) : Z := fold_right (fun e m => Z.max (fst e + 1) m) 3%Z t.
 
+(* do_resolve / opath::resolve with the check routine as a parameter; for
+   check_current these are the functions of OpathM (StaticProofs.resolve_is_gen) *)
+Section Gen.
+Variable fz : nat.
+Variable sysctl_ps : N.
+Variable chk : Z -> Z -> list bytes -> prog (result unit ekind).
+
+Definition do_resolve_gen (root : Z) (path : bytes) (nosym nofollow : bool) (stack : option sstack)
+  : prog (result wres ekind) :=
+  rootdup <-? os (dup_cloexec root) ;;
+  let st := {| w_root := rootdup; w_cur := rootdup; w_exp := [];
+               w_refs := [(rootdup, 2%nat)]; w_stack := stack |} in
+  if EMPTY_PATH_IS_ENOENT && is_nil path then
+    r <- ret_partial st None [] (OsError ENOENT) ;; Ret (Ok r)
+  else
+  r <- walk_gen fz sysctl_ps chk (final_check_gen chk) (N.to_nat MAX_SYMLINK_TRAVERSALS) nosym nofollow st (raw_components path) ;;
+  Ret (Ok r).
+
+Definition resolve_gen (root : Z) (path : bytes) (nosym nofollow : bool) : prog (result Z ekind) :=
+  w <-? do_resolve_gen root path nosym nofollow None ;;
+  match r_out w with
+  | Err e => Ret (Err e)
+  | Ok l =>
+      l' <- unwrap_rc l (r_refs w) ;;
+      match l' with
+      | Complete fd => Ret (Ok fd)
+      | Partial fd _ e => close fd ;;; Ret (Err e)
+      end
+  end.
+End Gen.
+
 Definition TMPFS_MAGIC := 16914836.    (* 0x01021994: some ordinary file system *)
 
 Inductive outcome (A : Type) := Done (t : fdt) (a : A) | Panicked (site : N) | NoFuel.
